@@ -198,3 +198,40 @@ def adapt_program(program, f32cols, ordered_cats=()):
     if program and isinstance(program[0][0], str):
         return [a(*t) for t in program]
     return [[a(*t) for t in g] for g in program]
+
+
+_UNIT_NS = {"s": 10 ** 9, "ms": 10 ** 6, "us": 10 ** 3, "ns": 1}
+
+
+def judgeable(program, frame):
+    """Raise Unorderable for constants whose comparison with the column is decided by lossy pandas/numpy casts rather than by
+    values: timestamps finer than the column's unit (isin() truncates them), integers outside the column's integer range and
+    floats beyond 2**53 against integer columns (compared through float64)."""
+    for g in normalise_program(program):
+        for c, op, v in g:
+            if c not in frame:
+                continue
+            dt = frame[c].dtype
+            vals = v if isinstance(v, list) else [v]
+            unit = None
+            if isinstance(dt, pd.DatetimeTZDtype):
+                unit = dt.unit
+            elif getattr(dt, "kind", None) in "Mm":
+                unit = np.datetime_data(dt)[0]
+            for x in vals:
+                if unit and unit != "ns" and isinstance(x, (pd.Timestamp, np.datetime64, datetime.datetime, pd.Timedelta, np.timedelta64)):
+                    n = norm(x)
+                    if n is not None and n[1] % _UNIT_NS[unit]:
+                        raise Unorderable("constant finer than the column's %s resolution" % unit)
+                kind = getattr(dt, "kind", None) or ("i" if str(dt)[:3] in ("Int", "UIn") else None)
+                if str(dt)[:3] in ("Int", "UIn"):
+                    info = np.iinfo(str(dt).lower())
+                elif kind in "iu":
+                    info = np.iinfo(dt)
+                else:
+                    info = None
+                if info is not None:
+                    if isinstance(x, (int, np.integer)) and not isinstance(x, (bool, np.bool_)) and not (info.min <= int(x) <= info.max):
+                        raise Unorderable("integer constant outside the column's range")
+                    if isinstance(x, (float, np.floating)) and abs(float(x)) >= 2.0 ** 53:
+                        raise Unorderable("float constant beyond 2**53 against an integer column")
